@@ -10,15 +10,18 @@ package checks
 
 import (
 	"bytes"
+	"crypto/sha256"
 	"encoding/json"
 	"fmt"
 	"io"
 	"os"
+	"os/exec"
 	"path/filepath"
 	"sort"
 	"strings"
 	"sync"
 	"sync/atomic"
+	"syscall"
 	"testing/fstest"
 
 	"github.com/magisterquis/curlrevshell/lib/shellfuncsfile"
@@ -357,6 +360,8 @@ func c17(r *ev.Result, tier string) {
 	other converter (the enumeration below relies on it, and runs in
 	parallel). */
 	c17BigFiles(r, base)
+	c17GlobNames(r, base)
+	c17ManyFiles(r, base)
 	if !c17Independent(r, base) {
 		r.Exhaustive = false
 		r.Set("stopped", "converters share state; the parallel enumeration was not run")
@@ -635,4 +640,125 @@ func c17BigFiles(r *ev.Result, base string) {
 	r.Add(4)
 	r.AddDistinct(4)
 	r.Set("big_file_sources", 4)
+}
+
+// c17GlobNames: sources whose names contain glob characters, next to siblings
+// such a pattern would match: a source is a name, not a pattern.
+func c17GlobNames(r *ev.Result, base string) {
+	dir := filepath.Join(base, "globnames")
+	os.MkdirAll(filepath.Join(dir, "funcs[12]"), 0o755)
+	os.MkdirAll(filepath.Join(dir, "funcs1"), 0o755)
+	defer os.RemoveAll(dir)
+	files := map[string]string{
+		"a[1].sh": "a_bracket() { :; }\n", "a1.sh": "a_one() { :; }\n",
+		"what?.sh": "what_q() { :; }\n", "whatX.sh": "what_x() { :; }\n",
+		"*.subr": "star() { :; }\n", "other.subr": "other() { :; }\n",
+		"funcs[12]/in.sh": "in_bracket_dir() { :; }\n", "funcs1/in.sh": "in_funcs1() { :; }\n",
+	}
+	for n, c := range files {
+		os.WriteFile(filepath.Join(dir, n), []byte(c), 0o644)
+	}
+	v := func(sig, what string) {
+		r.Violate(ev.Violation{Signature: "glob-names/" + sig, What: what, Kind: "c17big", Replay: map[string]string{"scenario": "source names with glob characters"}})
+	}
+	cases := []struct {
+		srcs []string
+		want string
+	}{
+		{[]string{"a[1].sh"}, files["a[1].sh"]},
+		{[]string{"what?.sh"}, files["what?.sh"]},
+		{[]string{"*.subr"}, files["*.subr"]},
+		{[]string{"funcs[12]"}, files["funcs[12]/in.sh"]},
+		{[]string{"whatX.sh", "what?.sh"}, files["whatX.sh"] + files["what?.sh"]},
+		{[]string{"a1.sh", "a[1].sh", "other.subr", "*.subr"}, files["a1.sh"] + files["a[1].sh"] + files["other.subr"] + files["*.subr"]},
+	}
+	for _, c := range cases {
+		var full []string
+		for _, s := range c.srcs {
+			full = append(full, filepath.Join(dir, s))
+		}
+		got, err := shellfuncsfile.NewDefaultConverter().From(full...)
+		if nil != err {
+			v("conversion-failed", fmt.Sprintf("sources %q: %v", c.srcs, err))
+		} else if string(got) != c.want {
+			v("payload-differs", fmt.Sprintf("sources %q (siblings a pattern would match exist): got %q, want %q", c.srcs, got, c.want))
+		}
+		/* The same through an fs.FS (except a *directory* source whose own
+		name has glob characters: fs.Sub's Glob reads the directory name as
+		part of the pattern and the conversion fails, loudly - observation
+		O2 in DESIGN 12.4; the program itself never converts through an
+		fs.FS). */
+		if 1 == len(c.srcs) && "funcs[12]" == c.srcs[0] {
+			continue
+		}
+		conv := shellfuncsfile.NewDefaultConverter()
+		conv.FS = os.DirFS(dir)
+		got, err = conv.From(c.srcs...)
+		if nil != err {
+			v("conversion-failed/fs", fmt.Sprintf("sources %q through an fs.FS: %v", c.srcs, err))
+		} else if string(got) != c.want {
+			v("payload-differs/fs", fmt.Sprintf("sources %q through an fs.FS: got %q, want %q", c.srcs, got, c.want))
+		}
+	}
+	r.Add(2 * len(cases))
+	r.AddDistinct(2 * len(cases))
+}
+
+// c17ManyFiles: a directory with more eligible files than the process may
+// have open at once (a worker with a lowered descriptor limit): files are
+// converted one after the other, not held.
+func c17ManyFiles(r *ev.Result, base string) {
+	dir := filepath.Join(base, "manyfiles")
+	os.MkdirAll(dir, 0o755)
+	defer os.RemoveAll(dir)
+	want := ""
+	for i := 0; i < 400; i++ {
+		c := fmt.Sprintf("f%03d() { :; }\n", i)
+		os.WriteFile(filepath.Join(dir, fmt.Sprintf("f%03d.sh", i)), []byte(c), 0o644)
+		want += c
+	}
+	out, err := exec.Command(os.Args[0], "worker", "c17fd", dir).Output()
+	var res struct {
+		Len int    `json:"len"`
+		Sum string `json:"sum"`
+		Err string `json:"err"`
+	}
+	if jerr := json.Unmarshal(out, &res); nil != jerr || nil != err {
+		ev.Broken("c17fd worker: %v %v %q", err, jerr, trunc80(string(out)))
+	}
+	sum := sha256.Sum256([]byte(want))
+	switch {
+	case "" != res.Err:
+		r.Violate(ev.Violation{Signature: "many-files/conversion-failed", Kind: "c17big", Replay: map[string]string{"scenario": "400 eligible files, 64 spare descriptors"},
+			What: "a directory of 400 eligible files converted in a process that may open 64 more files: " + res.Err})
+	case res.Len != len(want) || res.Sum != fmt.Sprintf("%x", sum):
+		r.Violate(ev.Violation{Signature: "many-files/payload-differs", Kind: "c17big", Replay: map[string]string{"scenario": "400 eligible files, 64 spare descriptors"},
+			What: fmt.Sprintf("a directory of 400 eligible files: payload of %d bytes, want %d", res.Len, len(want))})
+	}
+	r.Add(1)
+	r.AddDistinct(1)
+}
+
+func init() {
+	workers["c17fd"] = func(args []string) int {
+		ents, _ := os.ReadDir("/proc/self/fd")
+		lim := syscall.Rlimit{}
+		syscall.Getrlimit(syscall.RLIMIT_NOFILE, &lim)
+		lim.Cur = uint64(len(ents) + 64)
+		syscall.Setrlimit(syscall.RLIMIT_NOFILE, &lim)
+		var res struct {
+			Len int    `json:"len"`
+			Sum string `json:"sum"`
+			Err string `json:"err"`
+		}
+		b, err := shellfuncsfile.NewDefaultConverter().From(args[0])
+		if nil != err {
+			res.Err = err.Error()
+		} else {
+			res.Len = len(b)
+			res.Sum = fmt.Sprintf("%x", sha256.Sum256(b))
+		}
+		json.NewEncoder(os.Stdout).Encode(res)
+		return 0
+	}
 }
